@@ -403,6 +403,11 @@ func (c *contentValidator) ValidateRequestAccept(ch *aclrecordproto.AclAccountRe
 		// only join requests can be accepted, remove requests are resolved by AccountRemove or canceled
 		return ErrNoSuchRequest
 	}
+	if !c.aclState.Permissions(acceptIdentity).NoPermissions() {
+		// the requester has become a member by other means (AccountsAdd, PermissionChange) while the request
+		// was pending: accepting it now would overwrite its permissions bypassing the permission change rules
+		return ErrInsufficientPermissions
+	}
 	if ch.Permissions == aclrecordproto.AclUserPermissions_Owner {
 		return ErrInsufficientPermissions
 	}
